@@ -217,6 +217,18 @@ Definition iterm2_branch (m : method) (animated frame : bool) : ibranch :=
   if method_eqb m Anim && animated && negb frame then BNative
   else if method_eqb m Lines then BLines else BWhole.
 
+(** The render method in force after the native-animation branch.  The documentation
+    says that ANIM on a non-animated image or on an iterator frame "uses the WHOLE render
+    method instead"; the code does so exactly when the statement
+    [if render_method == ANIM: render_method = WHOLE] follows the native branch, which is
+    what the translated constant [iterm2_anim_falls_back] records.  Everything below
+    (minimal render size, read-from-file) tests this effective method. *)
+Definition iterm2_effective_method (m : method) (animated frame : bool) : method :=
+  match iterm2_branch m animated frame, m with
+  | BWhole, Anim => if iterm2_anim_falls_back then Whole else Anim
+  | _, _ => m
+  end.
+
 (** iterm2.py:666-680.  [mode_class]: 0 = one of 1 L RGB HSV CMYK, 1 = P or PA,
     2 = anything else; [alpha] as in [out_rgba]. *)
 Definition read_from_file_gate (rff animated readable : bool) (m : method)
